@@ -14,8 +14,8 @@ import (
 func h02(nBlocks, nTrusted int) {
 	tail := vp.Bytes("tail", vp.IntRange("tail_len", 0, 2))
 	w := mkPKI(nTrusted, nil)
-	certs := []*x509.Certificate{w.leaf, w.inter, w.root, mkCert("fourth")}
-	names := []string{"leaf", "inter", "root", "fourth"}
+	certs := []*x509.Certificate{w.leaf, w.inter, w.root, mkCert("fourth"), mkCert("fifth")}
+	names := []string{"leaf", "inter", "root", "fourth", "fifth"}
 	var blocks []*pem.Block
 	types := make([]string, nBlocks)
 	for i := 0; i < nBlocks; i++ {
